@@ -249,7 +249,7 @@ class CallMixin:
                     self.mod, self.module = saved_mod, saved_module
                 if cur.calls and not (len(cur.calls) == 1 and raw in cur.calls):
                     a0 = list(args)
-                    if cv.kind == "boundmethod":
+                    if cv.kind == "boundmethod" and not self.is_plain_static(cv):
                         a0 = [cv.env.get("#self", Val(kinds=FS({cv.cls})))] + a0
                     rets = [self.call_cv(c if c is not raw else raw, a0, kwargs, node, star) for c in sorted(cur.calls, key=lambda c: c.key())]
                     return join_all(rets)
@@ -258,7 +258,8 @@ class CallMixin:
             a = list(args)
             if cv.kind == "boundmethod":
                 target = CV("fn", cv.module, cv.qualname, cv.node, None, cls=cv.cls)
-                a = [cv.env.get("#self", Val(kinds=FS({cv.cls})))] + a
+                if not self.is_plain_static(cv):  # a staticmethod called through an instance takes no receiver
+                    a = [cv.env.get("#self", Val(kinds=FS({cv.cls})))] + a
             elif cv.kind == "fn" and cv.cls and cv.node is not None and not self.is_static(cv):
                 # Class.method(...) called through the class: first arg is explicit
                 pass
@@ -274,6 +275,9 @@ class CallMixin:
             return ret
         self.eng.unresolved.add(f"callable {cv} in {self.cv.label()}")
         return STRUCT
+
+    def is_plain_static(self, cv: CV) -> bool:
+        return any(dotted(d) == "staticmethod" for d in getattr(cv.node, "decorator_list", []))
 
     def is_static(self, cv: CV) -> bool:
         return any(dotted(d) in ("staticmethod", "classmethod") for d in getattr(cv.node, "decorator_list", []))
